@@ -192,46 +192,60 @@ func threaded(fn *ssa.Function, v ssa.Value, data ssa.Value, start ssa.Value, bu
 // start value (the offset parameter, or the constant 0 when start is nil) and
 // the offset returned by this very call — each element is parsed from where
 // the previous one ended.
+//
+// Where the loop body codes the current element at more than one place (an ordinary field here,
+// the chosen variant arm there — alternatives of one iteration), the merge may also contain the
+// offset returned by such a SIBLING call: a recursive call of the same function on the same data
+// whose own offset argument is, in turn, a merge of this kind.  Every value that can arrive at
+// the call is then still the start or the end of a previously parsed element, and the call's own
+// result must still be among them (an offset that is dropped is not carried).
 func loopCarried(fn *ssa.Function, call *ssa.Call, start ssa.Value) bool {
 	own := CallResult(call, 0)
-	leaves := map[ssa.Value]bool{}
-	var walk func(v ssa.Value, depth int)
-	walk = func(v ssa.Value, depth int) {
-		if ph, ok := v.(*ssa.Phi); ok && depth < 6 {
-			if leaves[ph] {
-				return
-			}
-			leaves[ph] = true
-			for _, ed := range ph.Edges {
-				walk(ed, depth+1)
-			}
-			return
-		}
-		leaves[v] = true
-	}
 	if _, isPhi := call.Call.Args[2].(*ssa.Phi); !isPhi || own == nil {
 		return false
 	}
-	walk(call.Call.Args[2], 0)
-	sawStart, sawOwn := false, false
-	for v := range leaves {
-		switch {
-		case v == own:
-			sawOwn = true
-		case start != nil && v == start:
-			sawStart = true
-		default:
-			if _, isPhi := v.(*ssa.Phi); isPhi {
-				continue
-			}
-			if c, isC := v.(*ssa.Const); isC && start == nil && constString(c) == "0" {
-				sawStart = true
-				continue
-			}
-			return false
+	data := call.Call.Args[1]
+	leaves := map[ssa.Value]bool{}
+	sawStart, sawOwn, ok := false, false, true
+	var walk func(v ssa.Value, depth int)
+	walk = func(v ssa.Value, depth int) {
+		if leaves[v] {
+			return
 		}
+		leaves[v] = true // (each value once: the walk ends)
+		switch x := v.(type) {
+		case *ssa.Phi:
+			for _, ed := range x.Edges {
+				walk(ed, depth+1)
+			}
+			return
+		case *ssa.Const:
+			if start == nil && constString(x) == "0" {
+				sawStart = true
+				return
+			}
+		case *ssa.Extract:
+			if v == own {
+				sawOwn = true
+				return
+			}
+			// the end of an element parsed by a sibling call on the same data, itself threaded
+			if sib, isCall := x.Tuple.(*ssa.Call); isCall && x.Index == 0 && sib.Call.StaticCallee() == fn && fn != nil &&
+				len(sib.Call.Args) == len(call.Call.Args) && sib.Call.Args[1] == data {
+				if _, isPhi := sib.Call.Args[2].(*ssa.Phi); isPhi {
+					walk(sib.Call.Args[2], depth+1)
+					return
+				}
+			}
+		}
+		if start != nil && v == start {
+			sawStart = true
+			return
+		}
+		ok = false
 	}
-	return sawStart && sawOwn
+	walk(call.Call.Args[2], 0)
+	return ok && sawStart && sawOwn
 }
 
 // keySafe turns a linear form into a key fragment: call arguments, loop-block
@@ -333,20 +347,45 @@ func beTree(e *wEng, v ssa.Value, acc []access) ([]beTerm, bool) {
 	return nil, false
 }
 
-// accumulatorShape: the value returned is Σ data[i]·256^(count−1−i) over i = 0 … info.count−1.
-//
-// The accumulator is acc = φ(0, (acc << 8) | data[i]) in the block of the counter i = φ(0, i+1),
-// the step executes exactly while i < info.count, and the value returned is the accumulator once
-// no further iteration is due:
-//   - loop tested at its head (`for i := 0; i < n; i++`): v is acc itself, returned where i ≥ count;
-//   - loop tested before the first iteration and after each one (`for i := range n`): v is a φ
-//     at the loop's exit that merges the constant 0 over edges on which count ≤ 0 (no iteration)
-//     with the stepped value over edges on which i+1 ≥ count (that was the last iteration).
+// accumulatorShape: the value returned is Σ data[i]·256^(count−1−i) over i = 0 … info.count−1
+// (accumulatorOver on readVarUint's own data parameter, from its first byte).
 func accumulatorShape(rv *c09fn, v ssa.Value) (bool, string) {
+	var use ssa.Instruction
+	for _, b := range rv.fn.Blocks {
+		for _, in := range b.Instrs {
+			if ret, ok := in.(*ssa.Return); ok && len(ret.Results) > 0 && ret.Results[0] == v {
+				use = ret
+			}
+		}
+	}
+	lo, ok, detail := accumulatorOver(rv, v, rv.fn.Params[0], countLeaf(rv.e, rv.fn.Params[1]), use)
+	if ok && !lo.eq(linConst(0)) {
+		return false, "the bytes accumulated start at data[" + lo.String() + "], not at the first byte"
+	}
+	if ok {
+		detail = "result = Σ data[i]·256^(count−1−i) for i = 0 … info.count−1"
+	}
+	return ok, detail
+}
+
+// accumulatorOver: at the instruction `use`, v = Σ base[lo+i]·256^(n−1−i) over i = 0 … n−1 — the
+// big-endian number held in the n bytes of base from position lo on; lo is returned.
+//
+// The accumulator is acc = φ(0, (acc << 8) | w[i]) in the block of the counter i = φ(0, i+1),
+// where w is a window of base fixed before the loop (w[i] is base[lo+i] with the same lo in every
+// round), the step executes exactly while i < n, and the value used is the accumulator once no
+// further iteration is due:
+//   - loop tested at its head (`for i := 0; i < n; i++`, `for _, c := range w[:n]`): v is acc
+//     itself, used where i ≥ n;
+//   - loop tested before the first iteration and after each one (`for i := range n`): v is a φ
+//     at the loop's exit that merges the constant 0 over edges on which n ≤ 0 (no iteration)
+//     with the stepped value over edges on which i+1 ≥ n (that was the last iteration).
+func accumulatorOver(rv *c09fn, v ssa.Value, base ssa.Value, cnt lin, use ssa.Instruction) (lin, bool, string) {
 	e := rv.e
+	lo := linConst(0)
 	ph, ok := v.(*ssa.Phi)
 	if !ok || len(ph.Edges) != 2 {
-		return false, "result is not a loop accumulator: " + e.r.D.D(v)
+		return lo, false, "result is not a loop accumulator: " + e.r.D.D(v)
 	}
 	split := func(p *ssa.Phi) (step *ssa.BinOp, zero bool) {
 		for _, ed := range p.Edges {
@@ -360,9 +399,9 @@ func accumulatorShape(rv *c09fn, v ssa.Value) (bool, string) {
 	}
 	step, zero := split(ph)
 	if !zero || step == nil {
-		return false, "accumulator does not start at 0 / is not result<<8 | byte"
+		return lo, false, "accumulator does not start at 0 / is not result<<8 | byte"
 	}
-	var idx, shifted ssa.Value
+	var idx, shifted, window ssa.Value
 	for _, op := range []ssa.Value{step.X, step.Y} {
 		for {
 			cv, ok := op.(*ssa.Convert)
@@ -377,13 +416,13 @@ func accumulatorShape(rv *c09fn, v ssa.Value) (bool, string) {
 				shifted = x.X
 			}
 		case *ssa.UnOp:
-			// the byte read: an element of a window of the data parameter whose ABSOLUTE position
-			// in data is the index value itself (data[i], or s[i] for s = data[0:n])
+			// the byte read: an element w[i] of a window w of base; its ABSOLUTE position in base
+			// is lo + i, lo being where w begins (data[i]: lo = 0; s[i] for s = data[k:m]: lo = k)
 			if ia, ok := x.X.(*ssa.IndexAddr); ok {
 				for _, a := range rv.acc {
-					if a.in == ssa.Instruction(ia) && a.kind == "index" && a.w != nil && a.w.base == ssa.Value(rv.fn.Params[0]) &&
-						len(a.pos) == 1 && a.pos[0].eq(e.lin(ia.Index)) {
-						idx = ia.Index
+					if a.in == ssa.Instruction(ia) && a.kind == "index" && a.w != nil && a.w.base == base &&
+						len(a.pos) == 1 && a.pos[0].eq(a.w.lo.plus(e.lin(ia.Index), 1)) {
+						idx, window, lo = ia.Index, a.v, a.w.lo
 					}
 				}
 			}
@@ -405,12 +444,12 @@ func accumulatorShape(rv *c09fn, v ssa.Value) (bool, string) {
 	okStart, okStep := false, false
 	if ib, isBin := idx.(*ssa.BinOp); isBin && shifted == ssa.Value(acc) && acc == ph {
 		if !rangeIndexFromZero(ib) || ib.Block() != acc.Block() {
-			return false, "step is not (result << 8) | data[i] over the loop counter"
+			return lo, false, "step is not (result << 8) | data[i] over the loop counter"
 		}
 		okStart, okStep = true, true // first round: −1 + 1 = 0; next round: i + 1
 	} else {
 		if shifted != ssa.Value(acc) || !isPhi || !isInduction(ip) || ip.Block() != acc.Block() {
-			return false, "step is not (result << 8) | data[i] over the loop counter"
+			return lo, false, "step is not (result << 8) | data[i] over the loop counter"
 		}
 		// counter 0,1,2,… and the step executes exactly while i < info.count
 		for _, ed := range ip.Edges {
@@ -424,23 +463,18 @@ func accumulatorShape(rv *c09fn, v ssa.Value) (bool, string) {
 			}
 		}
 	}
+	// the window is fixed before the loop is entered: lo names the same position in every round
+	if wi, isInstr := window.(ssa.Instruction); isInstr && !(wi.Block() != acc.Block() && wi.Block().Dominates(acc.Block())) {
+		return lo, false, "the bytes are read from a window that is re-made while the loop runs"
+	}
 	iLin := e.lin(idx)
-	cnt := countLeaf(e, rv.fn.Params[1])
 	body := step.Block()
 	facts := e.factsAt(body)
 	inBody := e.entails(cnt.plus(iLin, -1).addc(-1), facts) && !e.entails(cnt.plus(iLin, -1).addc(-2), facts)
 	exit := false
 	if acc == ph {
-		// after the loop: i ≥ count
-		var after []lin
-		for _, b := range rv.fn.Blocks {
-			for _, in := range b.Instrs {
-				if ret, ok := in.(*ssa.Return); ok && len(ret.Results) > 0 && ret.Results[0] == v {
-					after = e.factsAt(b)
-				}
-			}
-		}
-		exit = e.entails(iLin.plus(cnt, -1), after)
+		// after the loop: i ≥ count where the value is used
+		exit = use != nil && e.entails(iLin.plus(cnt, -1), e.factsAt(use.Block()))
 	} else {
 		// v's block is outside the loop; every edge into it either skips the loop because no
 		// iteration is due (value 0) or leaves it after the last iteration (value: the step)
@@ -463,9 +497,9 @@ func accumulatorShape(rv *c09fn, v ssa.Value) (bool, string) {
 		exit = exit && nZero == 1 && nLast == 1
 	}
 	if okStart && okStep && inBody && exit {
-		return true, "result = Σ data[i]·256^(count−1−i) for i = 0 … info.count−1"
+		return lo, true, "value = Σ data[" + lo.String() + " + i]·256^(n−1−i) for i = 0 … n−1, n = " + cnt.String()
 	}
-	return false, fmt.Sprintf("counter start0=%v step1=%v body-guard(i<count)=%v exit(i≥count)=%v", okStart, okStep, inBody, exit)
+	return lo, false, fmt.Sprintf("counter start0=%v step1=%v body-guard(i<count)=%v exit(i≥count)=%v", okStart, okStep, inBody, exit)
 }
 
 // ---- R2, encoder side ---------------------------------------------------------------------
@@ -567,6 +601,50 @@ func (c *c09fn) counterCovers(ph *ssa.Phi, at *ssa.BasicBlock, n lin) bool {
 	facts := e.factsAt(at)
 	room := n.plus(e.lin(ph), -1).addc(-1) // n − i − 1
 	return e.entails(e.lin(ph), facts) && e.entails(room, facts) && !e.entails(room.addc(-1), facts)
+}
+
+// positionsRead: the positions of the base that the access a touches over all its executions.
+// A point access at a fixed index touches the positions the window engine computed.  An access
+// w[i] whose index is a loop counter that takes exactly the values 0, 1, …, n−1 at the access
+// (counterCoversV) for a constant n, in a window fixed before the loop, touches lo+0 … lo+n−1.
+// Anything else is handed back as computed (symbolic in the counter: compared as such).
+func (c *c09fn) positionsRead(a access) []lin {
+	ia, ok := a.in.(*ssa.IndexAddr)
+	if !ok || a.kind != "index" || a.w == nil || len(a.pos) != 1 {
+		return a.pos
+	}
+	if _, isConst := c.e.lin(ia.Index).isConst(); isConst {
+		return a.pos
+	}
+	var head *ssa.BasicBlock // the block in which the counter is advanced
+	switch x := ia.Index.(type) {
+	case *ssa.Phi:
+		head = x.Block()
+	case *ssa.BinOp:
+		head = x.Block()
+	default:
+		return a.pos
+	}
+	if wi, isInstr := a.v.(ssa.Instruction); isInstr && !(wi.Block() != head && wi.Block().Dominates(head)) {
+		return a.pos // the window is re-made while the loop runs
+	}
+	var cands []int64
+	if n, isConst := a.w.length().isConst(); isConst {
+		cands = append(cands, n)
+	}
+	for n := int64(1); n <= 8; n++ {
+		cands = append(cands, n)
+	}
+	for _, n := range cands {
+		if n >= 1 && n <= 64 && c.counterCoversV(ia.Index, ia.Block(), linConst(n)) {
+			var out []lin
+			for j := int64(0); j < n; j++ {
+				out = append(out, a.w.lo.addc(j))
+			}
+			return out
+		}
+	}
+	return a.pos
 }
 
 // counterCoversV is counterCovers for an index given as a value: the counter φ itself, or the
